@@ -19,7 +19,7 @@ indexed by TOKENS, not positions:
 * `TOp.dmul a b`   product of two operators with DISJOINT supports: letters are
                    multiplied token-wise, phases added.  `TOp.mulOn S a b` is the
                    general product (the i-phases of the letter products at the
-                   tokens `S` are added); `JointLemmas.mulOn_eq_dmul` shows that the
+                   tokens `S` are added); `mulOn_eq_dmul` (JointLemmas.lean) shows that the
                    two agree whenever at every token of `S` one of the letters is `I`.
 
 MODELLED (this is the one modelling step of this layer, everything else is
@@ -33,7 +33,7 @@ groups.  Accordingly
                    from each factor's group;
 * `JointGroup e`   `ProdG` of the engines of `e`: factor = (slot labels of the
                    engine, `Stab.InGroup` of the engine's rows).  It does not
-                   depend on the order of the registers (`JointLemmas.prodG_perm`).
+                   depend on the order of the registers (`prodG_perm`, JointLemmasProd.lean).
 
 The ideal register:
 
